@@ -11,6 +11,7 @@ from vlib.api import all_of, any_of, harness, neg, struct_eq, truth
 
 from . import refs
 from .c14 import FakeReader, FakeSock, FakeWriter
+from . import secctx
 from .world import seq_eq
 
 META = dict(assumptions=[
@@ -21,23 +22,6 @@ META = dict(assumptions=[
 P = "C15"
 CTX = _client._ISD_KEY_CONTEXTS
 TOK = 4
-
-
-class Provider:
-    def __init__(self, c, nlegs, final_empty):
-        self.c, self.nlegs, self.final_empty = c, nlegs, final_empty
-        self.steps, self.in_tokens, self.out_tokens = 0, [], []
-        self.complete = False
-
-    def step(self, in_token=None):
-        self.steps += 1
-        self.in_tokens.append(in_token)
-        last = self.steps >= self.nlegs
-        tok = b"" if (last and self.final_empty) else self.c.bytes(f"ctok{self.steps}", TOK)
-        if last:
-            self.complete = True
-        self.out_tokens.append(tok)
-        return _pdu.SecTrailer(_pdu.SecurityProvider.RPC_C_AUTHN_GSS_NEGOTIATE, _pdu.AuthenticationLevel.RPC_C_AUTHN_LEVEL_PKT_PRIVACY, 0, 0, tok)
 
 
 class Server:
@@ -121,10 +105,11 @@ def _params(tier):
          "symbolic result codes, header-sign flag, token present/absent), script depth = number of legs + 1; sync client (async for legs=2 quick, more thorough)",
          outside="longer scripts; fragmented replies (C14)", must_reach=("tokens relayed in order, exactly once", "header signing = offered and every ack advertised it"))
 def handshake(c, nlegs, final_empty, flavour):
-    prov = Provider(c, nlegs, final_empty)
+    prov = secctx.IdealContext(c, 16, tokens=nlegs, final_empty=final_empty)
+    auth = secctx.provider(prov)
     srv = Server(c, nlegs + 1, full=nlegs <= 2)
     if flavour == "sync":
-        client = rc.SyncRpcClient(srv, prov)
+        client = rc.SyncRpcClient(srv, auth)
         ack = c.call(client.bind, CTX)
     else:
         class R:
@@ -143,7 +128,7 @@ def handshake(c, nlegs, final_empty, flavour):
             async def drain(self):
                 pass
 
-        client = rc.AsyncRpcClient(R(), W(), prov)
+        client = rc.AsyncRpcClient(R(), W(), auth)
 
         async def wrap_sync(func, *args):
             return func(*args)
@@ -162,6 +147,7 @@ def handshake(c, nlegs, final_empty, flavour):
     for p, t in zip(sent, nonempty):
         conds.append(p.sec_trailer is not None and seq_eq(p.sec_trailer.auth_value, t))
         conds.append(p.header.auth_len == len(t))
+        conds.append(p.sec_trailer is not None and p.sec_trailer.level == 6 and p.sec_trailer.type == 9 and p.sec_trailer.pad_length == 0)
     # server tokens are fed back in order
     conds.append(prov.in_tokens[0] is None)
     for i, it in enumerate(prov.in_tokens[1:]):
